@@ -209,7 +209,11 @@ def c13():
         for k, a in enumerate(acts):
             if k == cut:
                 for (t, _f) in rng.sample(cr, rng.randint(1, 2)):
-                    s.create_builtin(t)
+                    if i % 3 == 0:      # constructed detached, then subscribed by hand: still one reward per dispatch
+                        if s.create_builtin(t, subscribe=False) == "ok":
+                            s.subscribe_builtin(len(s.extra) - 1)
+                    else:
+                        s.create_builtin(t)
             if a["a"] == "D":
                 s.dispatch(a["j"], a["p"], a["m"])
             else:
